@@ -11,6 +11,7 @@ FRAGS = [
  b"1. a\n   2. b\n\t* c", b"> > > q", b"term\n: def\n: def2", b"```c\nx\n````", b"~~~\nx", b"# h [lbl]", b"h\n===", b"h\n---", b"###### h ######", b"####### h", b"* * *", b"- - -x",
  b"[a]: b\n[a]: c\n[a][] [a]", b"[^n]: note\n\n[^n][^n]", b"[#c]: cite\n\n[p][#c] [#c;]", b"[?g]: gl\n\n[?g] [?(inline) def]", b"[>ab]: Abbr\n\nab ab [>(cd) Cd] cd", b"x[^inline *note*] y[#inline cite]",
  b"![a](" + b"x" * 1500 + b")", b"[a](" + b"y" * 1100 + b" \"" + b"t" * 1200 + b"\")", b"![i](p.png \"" + b"T" * 2000 + b"\" width=" + b"9" * 300 + b"px)", b"[r]: " + b"u" * 1500 + b" \"t\"\n\n![z][r] [z][r]",
+ b"```{=html}", b"```{=latex}\n", b"```{=*}", b"~~~{=odt}\nx", b"`x`{=html} {=latex} y", b"```{=html}\n```",
  b"a  \nb\\\nc", b"*a **b* c**", b"_a*b_c*", b"***", b"* ", b"\t", b"    ", b"\n\n\n", b"",
 ]
 CTX = [b"", b"> ", b"* ", b"    ", b"# ", b"| ", b": ", b"[^n]: ", b"1. ", b"<div> "]
